@@ -112,6 +112,11 @@ def parse(text):
             r.kind = "leak" if len(sp) > 2 and sp[2] == "leak" else "q"
         elif k in ("N", "A", "!", "W", "#"):
             r.extra = " ".join(sp[2:])
+            if k == "N" and len(sp) >= 5 and sp[2] == "pay":
+                c = open_calls.get(int(sp[3]))
+                if c is not None:
+                    c.fields = dict(c.fields)
+                    c.fields["pay"] = int(sp[4])
         else:
             problems.append("unknown record: " + ln[:100])
         recs.append(r)
